@@ -66,7 +66,7 @@ SRC_TIE = {
  "C14": 'the constructors and accessor methods this property leans on are re-translated from the source text of cvss2/3/4.py on every run and CodeTie2/3/4 (+Final) re-prove model = translated source (construct_eq: same exception class or same object for EVERY string); the translation is executed against CPython every run.',
  "C15": 'the constructors and accessor methods this property leans on are re-translated from the source text of cvss2/3/4.py on every run and CodeTie2/3/4 (+Final) re-prove model = translated source (construct_eq: same exception class or same object for EVERY string); the translation is executed against CPython every run.',
  "C08": 'the constructors and accessor methods this property leans on are re-translated from the source text of cvss2/3/4.py on every run and CodeTie2/3/4 (+Final) re-prove model = translated source (construct_eq: same exception class or same object for EVERY string); the translation is executed against CPython every run.',
- "C12": 'the constructors and accessor methods this property leans on are re-translated from the source text of cvss2/3/4.py on every run and CodeTie2/3/4 (+Final) re-prove model = translated source (construct_eq: same exception class or same object for EVERY string); the translation is executed against CPython every run. Red Hat notation: from_rh_vector / rh_vector are translated too and CodeTieNRh.from_rh_vector_eq / rh_vector_eq re-prove them equal to the model's fromRh / rh (float() and float equality as modelled in Model/Float.lean); 2,100 RH strings per version are run against CPython.',
+ "C12": "the constructors and accessor methods this property leans on are re-translated from the source text of cvss2/3/4.py on every run and CodeTie2/3/4 (+Final) re-prove model = translated source (construct_eq: same exception class or same object for EVERY string); the translation is executed against CPython every run. Red Hat notation: from_rh_vector / rh_vector are translated too and CodeTieNRh.from_rh_vector_eq / rh_vector_eq re-prove them equal to the model's fromRh / rh (float() and float equality as modelled in Model/Float.lean); 2,100 RH strings per version are run against CPython.",
 }
 
 
